@@ -7,7 +7,11 @@ seeded/<name>/ holds patch.diff (a change to /repo that breaks property meta["pr
 test-suite stays green), demo.py (exits 0 on the unchanged tree, non-zero with the change) and meta.json.
 The tool (1) runs demo.py on the clean tree, (2) applies the patch to /repo, (3) runs the repository tests and
 demo.py, (4) runs ./check <property>, (5) ALWAYS restores /repo (git checkout -- .), and records what it saw in
-meta.json under "ran".  Nothing is ever committed to /repo."""
+meta.json under "ran".  Nothing is ever committed to /repo.
+
+  --scratch   do the same in a throw-away git worktree of /repo's HEAD (under /var/tmp) instead of /repo itself: the
+              check is pointed at it with ISOBAR_REPO and writes its evidence to a scratch directory, so several
+              seeded changes can be tried at the same time and /repo and evidence/ are never touched."""
 import json, os, subprocess, sys, time
 
 VERIF = os.path.dirname(os.path.dirname(os.path.abspath(__file__)))
@@ -20,7 +24,22 @@ def sh(cmd, **kw):
 
 
 def main():
+    global REPO
     d = os.path.abspath(sys.argv[1])
+    scratch = "--scratch" in sys.argv
+    if scratch:
+        REPO = "/var/tmp/seedrun-%s-%d" % (os.path.basename(d), os.getpid())
+        r = sh(["git", "-C", "/repo", "worktree", "add", "-q", "--detach", REPO, "HEAD"])
+        if r.returncode != 0:
+            print("cannot create scratch worktree:", r.stderr); return 2
+    try:
+        return run(d, scratch)
+    finally:
+        if scratch:
+            sh(["git", "-C", "/repo", "worktree", "remove", "--force", REPO])
+
+
+def run(d, scratch):
     tier = "quick"
     if "--tier" in sys.argv:
         tier = sys.argv[sys.argv.index("--tier") + 1]
@@ -29,7 +48,7 @@ def main():
     env = dict(os.environ, PYTHONPATH=REPO, PYTHONHASHSEED="0", PYTHONDONTWRITEBYTECODE="1")
     if sh(["git", "-C", REPO, "status", "--porcelain", "--untracked-files=no"]).stdout.strip():
         print("refusing: /repo has uncommitted changes"); return 2
-    ran = {"at": time.strftime("%Y-%m-%d %H:%M:%S"), "tier": tier,
+    ran = {"at": time.strftime("%Y-%m-%d %H:%M:%S"), "tier": tier, "scratch_worktree": scratch,
            "repo_head": sh(["git", "-C", REPO, "rev-parse", "--short", "HEAD"]).stdout.strip()}
     demo = os.path.join(d, "demo.py")
     r = sh([PY, demo], env=env, cwd="/tmp", timeout=600)
@@ -56,7 +75,13 @@ def main():
         r = sh([PY, demo], env=env, cwd="/tmp", timeout=600)
         ran["demo_patched_rc"] = r.returncode
         t0 = time.time()
-        c = sh([os.path.join(VERIF, "check"), prop, "--tier", tier], cwd=VERIF, timeout=7200)
+        cenv = dict(os.environ)
+        if scratch:
+            cenv["ISOBAR_REPO"] = REPO
+            cenv["VERIF_EVIDENCE_DIR"] = REPO + ".evidence"
+        c = sh([os.path.join(VERIF, "check"), prop, "--tier", tier], cwd=VERIF, timeout=7200, env=cenv)
+        if scratch:
+            sh(["rm", "-rf", REPO + ".evidence"])
         ran["check_rc"] = c.returncode
         ran["check_wall_s"] = round(time.time() - t0, 1)
         ran["check_lines"] = [l for l in c.stdout.splitlines() if l.startswith(("VIOLATION", "KNOWN-FINDING", prop))][:8]
